@@ -88,10 +88,13 @@ func init() {
 	p("C20", []RuleSel{
 		{"WEB", []string{"WEB-*"}},
 		{"EF", []string{"EF-globals"}},
-		{"BN", []string{"WEB-trunc", "LP-loop"}},
+		{"BN", []string{"WEB-trunc", "LP-loop", "BN-*", "PN-*"}},
 		{"RX", []string{"RX-model", "RX-status", "RX-elided"}},
+		{"EQ", []string{"EQ-key", "EQ-lift"}},
+		{"AG", []string{"AG-merge", "AG-once"}},
+		{"LX", []string{"LX-len", "LX-enum"}},
 	}, map[string]int{"WEB-status": 3, "WEB-method": 1, "WEB-validate": 3, "WEB-grow": 3, "WEB-opts": 1},
-		"The structural half of the handler contract is decided over all SSA paths of SnapshotHandler: the method test precedes everything, a non-GET gets exactly one 405, every invalid parameter value ends in exactly one 4xx reply followed by return, a failed snapshot in a 500, and the page (the aggregated snapshot written to the response) is produced only on the path without any error reply; options are created per request (WEB-opts) and no package-level state of webstack/stack is written (EF-globals), so requests cannot influence each other; the capture loop strictly grows the buffer to min(2n, maxmem) until the dump fits or maxmem is reached (WEB-grow, LP); every header and frame shape runtime.Stack prints is accepted by the parser patterns (RX). Not decided: anything about the live runtime, goroutine churn or request interleavings.",
+		"The structural half of the handler contract is decided over all SSA paths of SnapshotHandler: the method test precedes everything, a non-GET gets exactly one 405, every invalid parameter value ends in exactly one 4xx reply followed by return, a failed snapshot in a 500, and the page (the aggregated snapshot written to the response) is produced only on the path without any error reply; options are created per request (WEB-opts) and no package-level state of webstack/stack is written (EF-globals), so requests cannot influence each other; the capture loop strictly grows the buffer to min(2n, maxmem) until the dump fits or maxmem is reached (WEB-grow, LP); every header and frame shape runtime.Stack prints is accepted by the parser patterns (RX); aggregation and rendering of the page cannot panic on slice bounds (BN, with the equal-shape preconditions of merge and less discharged by EQ-lift/EQ-key/AG-merge/LX-len). Not decided: anything about the live runtime, goroutine churn or request interleavings.",
 		"net/http serialises nothing for us: handler re-entrancy rests on EF-globals; html/template execution is concurrency-safe")
 	p("C19", []RuleSel{
 		{"AUG", []string{"AUG-*"}},
@@ -111,7 +114,7 @@ func init() {
 		"the file system answers isFile/ReadFile truthfully")
 	p("C17", []RuleSel{
 		{"HT", []string{"HT-*"}},
-		{"BN", []string{"BN-neg", "PN-panic", "PN-implicit"}},
+		{"BN", []string{"BN-*", "PN-panic", "PN-implicit"}},
 		{"EF", []string{"EF-tpl"}},
 	}, map[string]int{"HT-url": 3, "HT-html": 1, "HT-funcmap": 5, "HT-tpl": 3, "HT-complete": 3, "HT-gen": 1},
 		"HTML safety rests on a handful of typed-string conversions and on the contexts in which the template inserts data. HT-url: an abstract evaluation of the string expressions of html.go (constants, concatenation, constant-format Sprintf, QueryEscape, EscapedPath, phi = join, calls = join of returns, fixpoint) decides that every value a template function can return as trusted URL is empty, constant, begins with a fixed https://host/, file:/// or data: prefix, or is query-escaped; HT-html: trusted-markup conversions take only constants or HTMLEscapeString results; HT-funcmap: the FuncMap holds exactly the vetted producers and no escaper-changing name; HT-tpl: the shipped template is parsed and every action is located in its HTML context by a tokenizer over the text nodes: none inside script/style/on*/unquoted attributes, in href/src an action is the whole value or follows constant text fixing the scheme, html/urlquery/js are not used; HT-complete: the loops over calls, buckets and goroutines emit their row/heading unconditionally; HT-gen: the analysed constant is goroutines.tpl after the generator's whitespace rule; BN-neg/PN: the helper functions cannot panic on slice bounds (rendering succeeds).",
